@@ -68,28 +68,30 @@ pub mod crate_error { pub type Error = super::Error; }
 //   * a measure strictly decreases with every item (the lexer consumes >= 1 char per item or finishes);
 //   * a limit error carries no text, and after it the lexer yields nothing (proved for the real
 //     Lexer::next in unit `limits`: limit_item_finishes, finished_is_final);
-//   * None is returned only after the limit was hit or once the whole text has been handed out.
-pub struct LexState { pub rest: Seq<char>, pub fuel: nat, pub limited: bool }
+//   * None is returned only after the limit was hit or after the EOF token (which comes last, when the text is used up).
+pub struct LexState { pub rest: Seq<char>, pub fuel: nat, pub limited: bool, pub done: bool }
 pub struct Lexer<'a> { pub limit_tracker: LimitTracker, pub st: Ghost<LexState>, pub p: core::marker::PhantomData<&'a ()> }
 impl<'a> Lexer<'a> {
     pub open spec fn rest(&self) -> Seq<char> { self.st@.rest }
     pub open spec fn fuel(&self) -> nat { self.st@.fuel }
     pub open spec fn limited(&self) -> bool { self.st@.limited }
+    /// the EOF token has been handed out (after which the lexer yields nothing)
+    pub open spec fn done(&self) -> bool { self.st@.done }
     #[verifier::external_body]
-    pub fn new(input: &'a str) -> (r: Self) ensures r.rest() == input@, !r.limited() { unimplemented!() }
+    pub fn new(input: &'a str) -> (r: Self) ensures r.rest() == input@, !r.limited(), !r.done() { unimplemented!() }
     #[verifier::external_body]
-    pub fn with_limit(self, limit: usize) -> (r: Self) ensures r.rest() == self.rest(), r.fuel() == self.fuel(), r.limited() == self.limited() { unimplemented!() }
+    pub fn with_limit(self, limit: usize) -> (r: Self) ensures r.rest() == self.rest(), r.fuel() == self.fuel(), r.limited() == self.limited(), r.done() == self.done() { unimplemented!() }
     #[verifier::external_body]
     pub fn next(&mut self) -> (r: Option<Result<Token<'a>, Error>>)
         ensures
             match r {
                 None => final(self).rest() == old(self).rest() && final(self).fuel() == old(self).fuel()
-                        && final(self).limited() == old(self).limited()
-                        && (old(self).limited() || old(self).rest() =~= Seq::<char>::empty()),
+                        && final(self).limited() == old(self).limited() && final(self).done() == old(self).done()
+                        && (old(self).limited() || (old(self).done() && old(self).rest() =~= Seq::<char>::empty())),
                 Some(Ok(t)) => old(self).rest() == t.data@ + final(self).rest() && final(self).fuel() < old(self).fuel()
-                        && !old(self).limited() && !final(self).limited(),
+                        && !old(self).limited() && !final(self).limited() && !old(self).done() && (final(self).done() <==> t.kind is Eof),
                 Some(Err(e)) => old(self).rest() == e.data@ + final(self).rest() && final(self).fuel() < old(self).fuel()
-                        && !old(self).limited() && (final(self).limited() <==> e.is_limit)
+                        && !old(self).limited() && (final(self).limited() <==> e.is_limit) && !old(self).done() && !final(self).done()
                         && (e.is_limit ==> e.data@ =~= Seq::<char>::empty()),
             },
     { unimplemented!() }
@@ -100,18 +102,22 @@ impl<'a> Lexer<'a> {
 #[verifier::external_body]
 pub struct SyntaxTreeBuilder { x: u8 }
 pub struct RowanCheckpoint { pub x: u8 }
+pub open spec fn ignored_syntax(k: SyntaxKind) -> bool { k is COMMENT || k is WHITESPACE || k is COMMA || k is ERROR }
 impl SyntaxTreeBuilder {
     pub uninterp spec fn text(&self) -> Seq<char>;
+    /// number of significant tokens (anything but COMMENT / WHITESPACE / COMMA / ERROR) added so far
+    pub uninterp spec fn nsig(&self) -> nat;
     #[verifier::external_body]
     pub fn token(&mut self, kind: SyntaxKind, text: &str)
-        ensures final(self).text() == old(self).text() + text@
+        ensures final(self).text() == old(self).text() + text@,
+            final(self).nsig() == old(self).nsig() + (if ignored_syntax(kind) { 0nat } else { 1nat }),
     { unimplemented!() }
     #[verifier::external_body]
-    pub fn start_node(&mut self, kind: SyntaxKind) ensures final(self).text() == old(self).text() { unimplemented!() }
+    pub fn start_node(&mut self, kind: SyntaxKind) ensures final(self).text() == old(self).text(), final(self).nsig() == old(self).nsig() { unimplemented!() }
     #[verifier::external_body]
     pub fn checkpoint(&self) -> RowanCheckpoint { unimplemented!() }
     #[verifier::external_body]
-    pub fn new() -> (r: Self) ensures r.text() =~= Seq::<char>::empty() { unimplemented!() }
+    pub fn new() -> (r: Self) ensures r.text() =~= Seq::<char>::empty(), r.nsig() == 0 { unimplemented!() }
     // finish_*: hand the accumulated errors and limit trackers to the tree, unchanged (syntax_tree.rs; not extracted: rowan)
     #[verifier::external_body]
     pub fn finish_type(self, errors: Vec<Error>, recursion_limit: LimitTracker, token_limit: LimitTracker) -> (r: syntax_tree::SyntaxTreeWrapper)
@@ -190,6 +196,7 @@ impl<'input> Parser<'input> {
         &&& (!self.accept_errors ==> self.errors@.len() > 0)        // a limit error was recorded
         &&& self.recursion_limit.current <= self.recursion_limit.limit   // C04: nesting never exceeds the limit
         &&& self.recursion_limit.limit < usize::MAX                 // machine-arithmetic side condition (a limit of 2^64-1 is meaningless)
+        &&& (self.current_token is Some ==> (self.lexer.done() <==> self.current_token->0.kind is Eof))   // the look-ahead is the item lexed last
     }
     /// what every primitive guarantees
     pub open spec fn conserved(&self, o: &Self) -> bool {
@@ -197,6 +204,7 @@ impl<'input> Parser<'input> {
         &&& self.advanced(o)
     }
     pub open spec fn advanced(&self, o: &Self) -> bool {
+        &&& self.builder.nsig() >= o.builder.nsig()
         &&& is_prefix(o.builder.text(), self.builder.text())                    // C04 the tree only ever grows at the end
         &&& self.wf()
         &&& self.recursion_limit.current == o.recursion_limit.current           // C04/C01 balanced bookkeeping
@@ -208,6 +216,8 @@ impl<'input> Parser<'input> {
     }
     /// termination measure: items the lexer can still produce, plus the buffered look-ahead token
     pub open spec fn fuel(&self) -> nat { self.lexer.fuel() + (if self.current_token is Some { 1nat } else { 0nat }) }
+    /// the EOF token has been consumed (only an error path does that)
+    pub open spec fn eof_consumed(&self) -> bool { self.lexer.done() && self.current_token is None }
     /// C07: nothing but ignored tokens (already queued) is left in the input
     pub open spec fn at_end(&self) -> bool {
         self.current_token is None || self.current_token->0.kind is Eof
@@ -290,7 +300,8 @@ PEEK_POST = [
     ("ensures", "fuel", F),
     ("ensures", "result_is_lookahead", "r is Some <==> final(self).current_token is Some"),
     ("ensures", "lookahead_stable", "old(self).current_token is Some ==> final(self).current_token == old(self).current_token && final(self).pending == old(self).pending && final(self).lexer == old(self).lexer && final(self).errors == old(self).errors && final(self).accept_errors == old(self).accept_errors"),
-    ("ensures", "none_means_exhausted", "r is None ==> (final(self).lexer.limited() || final(self).lexer.rest() =~= Seq::<char>::empty())"),
+    ("ensures", "none_means_exhausted", "r is None ==> (final(self).lexer.limited() || (final(self).lexer.done() && final(self).lexer.rest() =~= Seq::<char>::empty()))"),
+    ("ensures", "eof_is_last", "r is None ==> final(self).lexer.done() == old(self).lexer.done() && old(self).current_token is None"),
 ]
 
 lim = [p for p in LIMITS_UNIT["parts"] if isinstance(p, dict) and p.get("container") == "LimitTracker" or (isinstance(p, dict) and p.get("name") == "LimitTracker")]
@@ -337,6 +348,7 @@ UNIT = {
            hints=[("body_start", None, "proof { assert(old(self).errors@.push(err).subrange(0, old(self).errors@.len() as int) =~= old(self).errors@); lemma_conserved_refl(&*old(self)); }")]),
         P("push_token", [WF,
             ("ensures", "text_appended", "final(self).builder.text() == old(self).builder.text() + token.data@"),
+            ("ensures", "significant_count", "final(self).builder.nsig() == old(self).builder.nsig() + (if ignored_syntax(kind) { 0nat } else { 1nat })"),
             ("ensures", "frame", "final(self).pending == old(self).pending && final(self).current_token == old(self).current_token && final(self).lexer == old(self).lexer && final(self).recursion_limit == old(self).recursion_limit && final(self).errors == old(self).errors && final(self).accept_errors == old(self).accept_errors"),
            ], rewrites=BORROW),
         P("pop", [WF,
@@ -352,7 +364,8 @@ UNIT = {
             ("ensures", "fuel", "(r is Some ==> final(self).lexer.fuel() < old(self).lexer.fuel()) && final(self).lexer.fuel() <= old(self).lexer.fuel()"),
             ("ensures", "errors_appended", "errs_prefix(old(self).errors@, final(self).errors@) && (!old(self).accept_errors ==> !final(self).accept_errors)"),
             ("ensures", "frozen_after_token_limit", "old(self).lexer.limited() ==> final(self).errors@ =~= old(self).errors@ && final(self).lexer.limited() && r is None"),
-            ("ensures", "none_means_exhausted", "r is None ==> (final(self).lexer.limited() || final(self).lexer.rest() =~= Seq::<char>::empty())"),
+            ("ensures", "none_means_exhausted", "r is None ==> (final(self).lexer.limited() || (final(self).lexer.done() && final(self).lexer.rest() =~= Seq::<char>::empty()))"),
+            ("ensures", "eof_is_last", "(r is Some ==> (final(self).lexer.done() <==> r->0.kind is Eof)) && (r is None ==> final(self).lexer.done() == old(self).lexer.done())"),
            ],
            n_loops=1,
            rewrites=[("for res in &mut self.lexer {", "loop { match self.lexer.next() { None => break, Some(res) => {", 1),
@@ -361,10 +374,11 @@ UNIT = {
                ("wf", "self.wf(), self.current_token is None, self.builder == old(self).builder, self.recursion_limit == old(self).recursion_limit"),
                ("text_conserved", "self.builder.text() + pending_text(self.pending@) + self.lexer.rest() =~= old(self).all_text()"),
                ("fuel", "self.lexer.fuel() <= old(self).lexer.fuel()"),
+               ("eof_is_last", "self.lexer.done() == old(self).lexer.done()"),
                ("errors_appended", "errs_prefix(old(self).errors@, self.errors@), !old(self).accept_errors ==> !self.accept_errors"),
                ("frozen_after_token_limit", "old(self).lexer.limited() ==> self.errors@ =~= old(self).errors@ && self.lexer.limited()"),
            ], ensures=[
-               ("exhausted", "self.lexer.limited() || self.lexer.rest() =~= Seq::<char>::empty()"),
+               ("exhausted", "self.lexer.limited() || (self.lexer.done() && self.lexer.rest() =~= Seq::<char>::empty())"),
            ], decreases="self.lexer.fuel()")],
            hints=[
                ("body_start", None, "proof { assert(old(self).errors@.subrange(0, old(self).errors@.len() as int) =~= old(self).errors@); }"),
@@ -388,13 +402,15 @@ UNIT = {
                  ]),
         P("skip_ignored", [WF, ("ensures", "queue_kept_before_significant_lookahead", "(old(self).current_token is Some && !ignored_kind(old(self).current_token->0.kind)) ==> final(self).pending == old(self).pending"), ("ensures", "conserved", C), ("ensures", "tree_untouched", "final(self).builder == old(self).builder"), ("ensures", "fuel", F),
                            ("ensures", "stops_at_significant", "final(self).current_token is Some ==> !ignored_kind(final(self).current_token->0.kind)"), KEEP,
-                           ("ensures", "none_means_exhausted", "final(self).current_token is None ==> (final(self).lexer.limited() || final(self).lexer.rest() =~= Seq::<char>::empty())"),
+                           ("ensures", "eof_not_consumed", "!old(self).eof_consumed() ==> !final(self).eof_consumed()"),
+                           ("ensures", "none_means_exhausted", "final(self).current_token is None ==> (final(self).lexer.limited() || (final(self).lexer.done() && final(self).lexer.rest() =~= Seq::<char>::empty()))"),
                            ],
           n_loops=1,
           loops=[dict(invariant=[("conserved", "self.conserved(old(self)), self.builder == old(self).builder"), ("fuel", "self.fuel() <= old(self).fuel()"),
+                                 ("eof_not_consumed", "!old(self).eof_consumed() ==> !self.eof_consumed()"),
                                  ("significant_lookahead_kept", "(old(self).current_token is Some && !ignored_kind(old(self).current_token->0.kind)) ==> self.current_token == old(self).current_token && self.lexer == old(self).lexer && self.errors == old(self).errors && self.accept_errors == old(self).accept_errors && self.pending == old(self).pending")],
                       ensures=[("stops_at_significant", "self.current_token is Some ==> !ignored_kind(self.current_token->0.kind)"),
-                               ("none_means_exhausted", "self.current_token is None ==> (self.lexer.limited() || self.lexer.rest() =~= Seq::<char>::empty())")],
+                               ("none_means_exhausted", "self.current_token is None ==> (self.lexer.limited() || (self.lexer.done() && self.lexer.rest() =~= Seq::<char>::empty()))")],
                       decreases="self.fuel()")],
           hints=[("body_start", None, "proof { lemma_conserved_refl(&*old(self)); }"),
                  ("before", "let token = self.pop();", "proof { lemma_pending_push(self.pending@, PendingToken::Ignored(self.current_token->0)); }\nlet ghost before_pop = *self;"),
@@ -402,6 +418,7 @@ UNIT = {
         P("push_ignored", [WF, ("ensures", "conserved", C), ("ensures", "queue_flushed", "final(self).pending@.len() == 0"),
                            ("ensures", "frame", "final(self).current_token == old(self).current_token && final(self).lexer == old(self).lexer && final(self).errors == old(self).errors && final(self).accept_errors == old(self).accept_errors && final(self).recursion_limit == old(self).recursion_limit"),
                            ("ensures", "flushed_into_tree", "final(self).builder.text() =~= old(self).builder.text() + pending_text(old(self).pending@)"),
+                           ("ensures", "only_ignored_tokens_flushed", "final(self).builder.nsig() == old(self).builder.nsig()"),
                            ("ensures", "fuel", "final(self).fuel() == old(self).fuel()")],
           n_loops=1,
           rewrites=BORROW + [("for item in pending {", "for item in it: pending {", 1)],
@@ -409,6 +426,7 @@ UNIT = {
               ("queue_taken", "self.pending@.len() == 0, pending_wf(old(self).pending@), self.wf()"),
               ("iterator", "vstd::std_specs::vec::into_iter_elts(it.snapshot@) == old(self).pending@, 0 <= it.index@ <= old(self).pending@.len(), it.history@ =~= old(self).pending@.take(it.index@ as int)"),
               ("flushed_prefix", "self.builder.text() =~= old(self).builder.text() + pending_text(old(self).pending@.take(it.index@ as int))"),
+              ("only_ignored_tokens_flushed", "self.builder.nsig() == old(self).builder.nsig()"),
               ("frame", "self.current_token == old(self).current_token, self.lexer == old(self).lexer, self.recursion_limit == old(self).recursion_limit, self.errors == old(self).errors, self.accept_errors == old(self).accept_errors"),
           ])],
           hints=[
@@ -422,6 +440,7 @@ UNIT = {
     
         P("eat", [WF, LOOK, ("ensures", "conserved", C), ("ensures", "fuel_strictly_decreases", "final(self).fuel() < old(self).fuel()"),
                   ("ensures", "errors_untouched", "final(self).errors == old(self).errors && final(self).accept_errors == old(self).accept_errors"),
+                  ("ensures", "significant_count", "final(self).builder.nsig() == old(self).builder.nsig() + (if ignored_syntax(kind) { 0nat } else { 1nat })"),
                   ("ensures", "consumes_lookahead", "final(self).current_token is None && final(self).pending@.len() == 0 && final(self).lexer == old(self).lexer && final(self).builder.text() =~= old(self).builder.text() + pending_text(old(self).pending@) + old(self).current_token->0.data@")],
           hints=[("before", "if self.current().is_none() {", "let ghost s1 = *self;"),
                  ("before", "let token = self.pop();", "let ghost s2 = *self; proof { lemma_conserved_trans(&*old(self), &s1, &s2); assert(s2.pending@.len() == 0); }"),
@@ -429,7 +448,8 @@ UNIT = {
                                     "        assert(self.errors@.subrange(0, old(self).errors@.len() as int) =~= s2.errors@.subrange(0, old(self).errors@.len() as int)); assert(pending_text(self.pending@) =~= Seq::<char>::empty()); }")]),
         P("bump", [WF, LOOK, ("ensures", "conserved", C), ("ensures", "fuel_strictly_decreases", "final(self).fuel() < old(self).fuel()"),
                    ("ensures", "tree_gets_lookahead", "is_prefix(old(self).builder.text() + pending_text(old(self).pending@) + old(self).current_token->0.data@, final(self).builder.text())"),
-                   ("ensures", "stops_at_significant", "final(self).current_token is Some ==> !ignored_kind(final(self).current_token->0.kind)")],
+                   ("ensures", "stops_at_significant", "final(self).current_token is Some ==> !ignored_kind(final(self).current_token->0.kind)"),
+                   ("ensures", "significant_count", "final(self).builder.nsig() == old(self).builder.nsig() + (if ignored_syntax(kind) { 0nat } else { 1nat })")],
           hints=[("after", "self.eat(kind);", "let ghost s1 = *self;"),
                  ("body_end", None, "proof { lemma_conserved_trans(&*old(self), &s1, &*self); }")]),
         P("limit_err", [WF, ("ensures", "conserved", C), ("ensures", "fuel", F),
@@ -472,11 +492,11 @@ UNIT = {
                  ("after", "self.push_ignored();", "let ghost s2 = *self; proof { lemma_conserved_trans(&*old(self), &s1, &s2); }"),
                  ("after", "self.skip_ignored();", "proof { lemma_conserved_trans(&*old(self), &s2, &*self); }")]),
         P("checkpoint_node", [WF, ("ensures", "conserved", C), ("ensures", "fuel", "final(self).fuel() == old(self).fuel()"),
-                              ("ensures", "frame", "final(self).current_token == old(self).current_token && final(self).lexer == old(self).lexer && final(self).errors == old(self).errors")],
+                              ("ensures", "frame", "final(self).current_token == old(self).current_token && final(self).lexer == old(self).lexer && final(self).errors == old(self).errors && final(self).builder.nsig() == old(self).builder.nsig()")],
           rewrites=[("self.builder.borrow().checkpoint()", "self.builder.checkpoint()", 1), ("Checkpoint::new(self.builder.clone(), checkpoint)", "Checkpoint::new_shim(checkpoint)", 1)]),
         P("expect_end_of_input", [WF, ("ensures", "conserved", C), ("ensures", "fuel", F),
                                   ("ensures", "no_new_error_only_at_end_of_input", "(final(self).errors@.len() == old(self).errors@.len() && final(self).accept_errors) ==> final(self).at_end()"),
-                                  ("ensures", "end_means_exhausted", "final(self).current_token is None ==> (final(self).lexer.limited() || final(self).lexer.rest() =~= Seq::<char>::empty())")],
+                                  ("ensures", "end_means_exhausted", "final(self).current_token is None ==> (final(self).lexer.limited() || (final(self).lexer.done() && final(self).lexer.rest() =~= Seq::<char>::empty()))")],
           props=["C07"],
           hints=[("after", "self.skip_ignored();", "let ghost s1 = *self;"),
                  ("before", "self.err(\"expected end of input\");", "let ghost s2 = *self; proof { lemma_conserved_trans(&*old(self), &s1, &s2); }"),
@@ -485,13 +505,16 @@ UNIT = {
     
         # ---------------- grammar functions that consume tokens directly ----------------
         dict(file=PM, kind="const", name="DEFAULT_RECURSION_LIMIT"),
-        P("new", [("ensures", "initial_state", "r.wf() && r.all_text() =~= input@ && r.errors@.len() == 0 && r.recursion_limit.current == 0 && r.builder.text() =~= Seq::<char>::empty() && r.current_token is None && r.pending@.len() == 0")],
+        P("new", [("ensures", "initial_state", "r.wf() && r.all_text() =~= input@ && r.errors@.len() == 0 && r.recursion_limit.current == 0 && r.builder.text() =~= Seq::<char>::empty() && r.current_token is None && r.pending@.len() == 0 && !r.eof_consumed()")],
           rewrites=[("Rc::new(RefCell::new(SyntaxTreeBuilder::new()))", "SyntaxTreeBuilder::new()", 1)], props=["C02", "C01"]),
         G(TY, "parse", [GWF,
             ("requires", "lookahead_peeked_or_fresh", "true"),
             ("ensures", "lossless", "final(p).all_text() =~= old(p).all_text()", ["C02"]),
             ("ensures", "advanced", "final(p).advanced(old(p))"),
             ("ensures", "fuel", "final(p).fuel() <= old(p).fuel() && (res is Ok ==> final(p).fuel() < old(p).fuel())"),
+            ("ensures", "ok_consumes_a_significant_token", "(res is Ok ==> final(p).builder.nsig() > old(p).builder.nsig()) && (res is Err ==> final(p).builder.nsig() == old(p).builder.nsig())", ["C07"]),
+            ("ensures", "no_token_only_after_limit_or_eof", "(res is Err && res->Err_0 is None) ==> (final(p).lexer.limited() || old(p).eof_consumed())", ["C07"]),
+            ("ensures", "offending_token_is_returned", "(res is Err && res->Err_0 is Some) ==> final(p).accept_errors == old(p).accept_errors || !final(p).accept_errors", ["C07"]),
             ("decreases", None, "old(p).fuel()"),
           ], ret="res",
           hints=[
@@ -528,7 +551,9 @@ UNIT = {
     
         # standalone type: leading ignored tokens are dropped (no parent node exists for them), so the text is not
         # conserved here (C02 is about documents); everything else is.
-        G(TY, "standalone_ty", [GWF, ("ensures", "advanced", "final(p).advanced(old(p))"), ("ensures", "fuel", "final(p).fuel() <= old(p).fuel()")],
+        G(TY, "standalone_ty", [GWF, ("requires", "fresh", "!old(p).eof_consumed()"),
+                                ("ensures", "advanced", "final(p).advanced(old(p))"), ("ensures", "fuel", "final(p).fuel() <= old(p).fuel()"),
+                                ("ensures", "missing_type_is_reported", "final(p).builder.nsig() == old(p).builder.nsig() ==> (final(p).errors@.len() > old(p).errors@.len() || !final(p).accept_errors)", ["C07"])],
           hints=[("after", "p.skip_ignored();", "let ghost s1 = *p;"),
                  ("after", "p.pending.clear();", "let ghost s2 = *p; proof { assert(s2.advanced(&s1)) by { lemma_conserved_refl(&s1); }; lemma_advanced_trans(&*old(p), &s1, &s2); }"),
                  ("before", "Ok(_) => (),", "Ok(_) if false => (),") if False else ("body_end", None, "proof { }"),
@@ -571,15 +596,15 @@ UNIT = {
           rewrites=[("p.recursion_limit.decrement()\n", "p.recursion_limit.decrement();\n", 1)]),
     
         # ---------------- standalone entry points (C07) ----------------
-        P("parse_type", [("requires", "wf", "self_in.wf()"),
+        P("parse_type", [("requires", "wf", "self_in.wf()"), ("requires", "fresh", "!self_in.eof_consumed()"),
                          ("ensures", "no_error_dropped", "tree.errors@.len() == 0 ==> self_in.errors@.len() == 0")],
           ret="tree", props=["C07", "C01"],
           rewrites=[("grammar::ty::standalone_ty(&mut self);", "standalone_ty(&mut self);", 1), MUTSELF_1, MUTSELF_2,
                     ('Rc::try_unwrap\\(this\\.builder\\)\\s*\\.expect\\(\\"More than one reference to builder left\\"\\)\\s*\\.into_inner\\(\\)', "this.builder", 1, "re")],
           hints=[("after", "this.expect_end_of_input();",
                   "let ghost errs = this.errors;\n"
-                  "proof { /* C07: no error is reported only if nothing but ignored tokens is left after the type */\n"
-                  "        assert(this.errors@.len() == 0 ==> this.at_end()); }"),
+                  "proof { /* C07: no error is reported only if a type was consumed and nothing but ignored tokens is left after it */\n"
+                  "        assert(this.errors@.len() == 0 ==> this.at_end() && this.builder.nsig() > self_in.builder.nsig()); }"),
                  ("before", "match builder {", "proof { assert(builder is Type && builder->Type_0.errors == errs); /* the tree reports exactly the parser's errors */ }")]),
         P("parse_selection_set", [("requires", "wf", "self_in.wf()"),
                                   ("ensures", "no_error_dropped", "tree.errors@.len() == 0 ==> self_in.errors@.len() == 0")],
